@@ -436,7 +436,7 @@ P["C05"]["units"].append(_u)
 # =================== the GnuTLS provider entries (C12 parity, C01, C06) =====
 GNUTLS_SV = "libjwt/gnutls/sign-verify.c"
 GNUTLS_STUBS = LIBC + ["stubs/alloc.c", "stubs/gnutls.c"]
-MKJ = "jwt_t *jwt = malloc(sizeof(*jwt)); jwk_item_t *key = malloc(sizeof(*key)); __CPROVER_assume(jwt != NULL && key != NULL); jwt->key = key; char *o = NULL; unsigned int l; gnutls_free = verif_gnutls_free; g_rs_buf = NULL; "
+MKJ = "jwt_t *jwt = malloc(sizeof(*jwt)); jwk_item_t *key = malloc(sizeof(*key)); __CPROVER_assume(jwt != NULL && key != NULL); jwt->key = key; char *o = NULL; unsigned int l; gnutls_free = verif_gnutls_free; g_rs_buf = NULL; g_rs_freed = 0; "
 PEM = "size_t pn; __CPROVER_assume(pn < 0x100000); key->pem = nondet_bool() ? NULL : VS(pn); "
 def gnutls_units(prefix):
     return [
@@ -453,6 +453,9 @@ def gnutls_units(prefix):
           "gnutls_sign_sha_pem/contract_ops_sign_sha_pem", stubs=GNUTLS_STUBS, defines=["VERIF_TU_GNUTLS_SV"], pre=[VS],
           expect=["contract_ops_sign_sha_pem\\.postcondition\\.2", "gnutls_privkey_sign_data\\.assertion"]),
     ]
+_u = dict(gnutls_units("C06")[1]); _u["name"] = "C06.gnutls_verify_sha_pem.release"; _u["enforce"] = "gnutls_verify_sha_pem/contract_C06_gnutls_verify_sha_pem"
+_u["expect"] = ["contract_C06_gnutls_verify_sha_pem\\.postcondition\\.6"]
+GNUTLS_RELEASE_UNIT = _u
 P["C01"]["units"] += gnutls_units("C01")[:2]
 P["C05"]["units"] += gnutls_units("C05")[2:]
 P["C12"]["units"] += gnutls_units("C12") + [dict(u, name=u["name"].replace("C01.", "C12.")) for u in ossl_units("C01")[:2]] + \
@@ -520,7 +523,7 @@ def parse_unit(N, tier):
       bound="token length L < 2^33 with L mod 2^32 < %d (loops unwound %d times, unwinding assertions on)" % (N, N + 2),
       expect=["contract_all_jwt_parse\\.postcondition\\.9", "jwt_parse\\.unwind", "contract_rec_jwt_parse_head\\.precondition", "memcpy\\.assertion\\.1"],
       timeout=900, timeout_thorough=3000, tier=tier, replay={"driver": "replay/r_C06_long.c"})
-P["C06"] = {"property": "C06", "level": "proof", "units": [parse_unit(12, "quick"), parse_unit(28, "thorough"),
+P["C06"] = {"property": "C06", "level": "proof", "units": [parse_unit(12, "quick"), parse_unit(28, "thorough"), GNUTLS_RELEASE_UNIT,
     U("C06.jwt_base64uri_decode_to_json", "jwt_base64uri_decode_to_json (libjwt/jwt-verify.c)", VERIFY_C, "contracts/jwt_verify_c.h",
       "size_t n; __CPROVER_assume(n < 0x10000000); char *h = VS(n); jwt_base64uri_decode_to_json(h);",
       "jwt_base64uri_decode_to_json/contract_jwt_base64uri_decode_to_json",
